@@ -120,7 +120,8 @@ class WeakForms(_Simu):
         # Data
         weakForms = self.weakForms
         field = weakForms.field
-        thickness = 1.0 if self.mesh.inDim == 3 else weakForms.thickness
+        # the thickness belongs to two-dimensional elements, wherever the mesh lies in space
+        thickness = weakForms.thickness if self.mesh.dim == 2 else 1.0
 
         tic = Tic()
 
